@@ -8,9 +8,11 @@ CLAIM = {
                "hook by differential execution of ReadN scripts (exact, error kinds included); chunked-vs-contiguous Go oracle for whole decodes and reader failures",
   "text": "Proved: every ReadN over any chunking reader returns exactly the next n bytes of the stream, leaves exactly the rest, never panics, fails iff fewer than n bytes remain; "
           "any two schedules/buffer sizes answer every request script alike (error kind aside); every buffer size option is well-formed and the decoder's largest request fits "
-          "the reserved section. Since the decoder sees its input only through ReadN this gives the same headers, messages, CRCs and failure offsets; that lifting and the "
-          "reader-failure clause are decided per run by the Go oracle (chunked vs contiguous event logs of Decode; count and verdict of CheckIntegrity, also with a reader that "
-          "returns all bytes together with io.EOF), not by a theorem. The error KIND on truncation depends on the chunking "
+          "the reserved section. Lifted to the decoder (C08_decode_buffer_independent, C08_fresh_decoders_agree): in the decoder model one refill delivers min(buffer size, "
+          "what the reader holds), so the buffer size decides how the stream reaches the decoder; two decoders whose option sets differ in the buffer size only, however much "
+          "of the stream each has already buffered, return the same FIT (headers, messages, CRC) and stay related, or errors of one class -- relational proof through every "
+          "function of the decoder model. Arbitrary chunk plans directly under Decode and the reader-failure clause are decided per run by the Go oracle (chunked vs "
+          "contiguous event logs of Decode; count and verdict of CheckIntegrity, also with a reader that returns all bytes together with io.EOF). The error KIND on truncation depends on the chunking "
           "(known finding eof_kind_depends_on_chunking, pinned by TestDecodeMessageData).",
   "note": NOTE_COMMON + " io.ReadAtLeast and the io.Reader contract (0 < n <= len(p) unless EOF/error) are modelled, not verified; hook commit in MANIFEST.hooks."}
 
